@@ -13,6 +13,8 @@ impl<'a> Iterator for TokenIter<'a> {
     type Item = Token;
 
     fn next(&mut self) -> Option<Self::Item> {
+        #[cfg(feature = "verif-hooks")]
+        crate::verif_hooks::token_pulled(false);
         match self.iter.next() {
             Some((Ok(kind), span)) => Some(Token { kind, span }),
             Some((Err(_), span)) => Some(Token {
@@ -21,6 +23,8 @@ impl<'a> Iterator for TokenIter<'a> {
             }),
             None if !self.eof => {
                 self.eof = true;
+                #[cfg(feature = "verif-hooks")]
+                crate::verif_hooks::token_pulled(true);
                 Some(Token {
                     kind: TokenKind::Eof,
                     span: self.iter.span(),
